@@ -431,6 +431,25 @@ func (op *Op) IOBody(b *Built, kind string) string {
 	}
 }
 
+// dispatchLenient is dispatch with the media type compared the way RFC 9110 compares it (case-insensitively,
+// surrounding white space ignored).
+func (io *IOSpec) dispatchLenient() string {
+	if io.Method == "GET" || io.Method == "HEAD" {
+		return "query"
+	}
+	mt := io.CT
+	if i := strings.Index(mt, ";"); i >= 0 {
+		mt = mt[:i]
+	}
+	switch strings.ToLower(strings.TrimSpace(mt)) {
+	case "application/json":
+		return "json"
+	case "application/x-www-form-urlencoded":
+		return "form"
+	}
+	return "query"
+}
+
 // sourceTag is the struct tag the documented dispatch of zhttp selects.
 func (io *IOSpec) sourceTag() string {
 	switch io.dispatch() {
@@ -453,7 +472,7 @@ func (io *IOSpec) dispatch() string {
 	if i := strings.Index(mt, ";"); i >= 0 {
 		mt = mt[:i]
 	}
-	switch strings.TrimSpace(mt) {
+	switch mt {
 	case "application/json":
 		return "json"
 	case "application/x-www-form-urlencoded":
